@@ -132,6 +132,14 @@ var verifC13Invalid = []func(r *Router){
 	func(r *Router) { r.Add("/x", verifNop, "FETCH") },
 	func(r *Router) { r.Add("/x", verifNop, "DEL") },
 	func(r *Router) { r.Add("/x", verifNop, "GET,POST") },
+	// far beyond the limit (sizes at which a narrow counter would wrap), through each registration path
+	func(r *Router) { r.GET("/x", verifNop, make([]HandlerFunc, 128)...) },
+	func(r *Router) { r.GET("/x", verifNop).Use(make([]HandlerFunc, 200)...) },
+	func(r *Router) {
+		r.Group("/g", func() { r.GET("/x", verifNop, make([]HandlerFunc, 100)...) }, make([]HandlerFunc, 156)...)
+	},
+	func(r *Router) { r.GET("/x", verifNop, make([]HandlerFunc, 300)...) },
+	func(r *Router) { r.GET("/x", verifNop).Use(make([]HandlerFunc, 255)...) },
 	// an optional part that closes before the end, although the pattern ends in ']' and the brackets balance
 	func(r *Router) { r.GET("/blog[/{category}][/{id}]", verifNop) },
 	func(r *Router) { r.GET("/blog[/go]/12[.html]", verifNop) },
